@@ -136,12 +136,69 @@ def check_case_layout(ct, case, seed, layout="C"):
     return out
 
 
+def sibling(xs, g):
+    """a second geometry with the same channels, kernel, dilation and number of windows per axis as (xs, g) but
+    another stride and padding (the image is resized accordingly)"""
+    k, d, s, p = g["k"], g["d"], g["s"], g["p"]
+    sp = xs[2:]
+    cnt = [(sp[a] + 2 * p[a] - d[a] * (k[a] - 1) - 1) // s[a] + 1 for a in range(2)]
+    s2 = [s[0] + 1, s[1] + 2]
+    p2 = [1 - min(p[0], 1), p[1]]
+    sp2 = [(cnt[a] - 1) * s2[a] + d[a] * (k[a] - 1) + 1 - 2 * p2[a] for a in range(2)]
+    if min(sp2) < 1:
+        return None
+    return list(xs[:2]) + sp2, dict(k=k, d=d, s=s2, p=p2)
+
+
+def check_pair(ct, case, seed):
+    """The routines are functions of their arguments: after a call on one geometry, a call on a sibling geometry
+    (same kernel, dilation, channels and window grid; other stride, padding, image size) must still give identical
+    matrices in all implementations, identical images back, and the cover count."""
+    out = []
+    if case["op"] != "im2col" or case["pol"] != "MUST" or case["a"]["layout"] != "unfold":
+        return out
+    xs, g = case["shapes"][0], case["a"]["g"]
+    sib = sibling(xs, g)
+    if sib is None:
+        return out
+    xs2, g2 = sib
+    rng = np.random.RandomState(seed)
+    xa = arr(case["X"][0], xs)
+    xb = rng.randint(-9, 10, size=tuple(xs2)).astype(np.float64)
+    kwa, kwb = geom(g, False), geom(g2, False)
+    key = "history:%s" % tag(g)
+    try:
+        for name in ("im2col", "im2col_v2", "im2col_fast"):
+            getattr(ct, name)(xa, as_unfold=True, **kwa)
+        cols = {name: getattr(ct, name)(xb, as_unfold=True, **kwb) for name in ("im2col", "im2col_v2", "im2col_fast")}
+        for name in ("im2col_v2", "im2col_fast"):
+            if cols[name].shape != cols["im2col"].shape or not np.array_equal(cols[name], cols["im2col"]):
+                out.append((key + ":im2col-variants-differ", "after a call on x%s %s, im2col and %s disagree on x%s %s" % (xs, kwa, name, xs2, kwb)))
+        ya = rng.randint(-5, 6, size=getattr(ct, "im2col")(xa, as_unfold=True, **kwa).shape).astype(np.float64)
+        for name in ("col2im", "col2im_v2", "col2im_fast"):
+            getattr(ct, name)(ya, tuple(xs), **kwa)
+        yb = rng.randint(-5, 6, size=cols["im2col_v2"].shape).astype(np.float64)
+        imgs = {name: getattr(ct, name)(yb, tuple(xs2), **kwb) for name in ("col2im", "col2im_v2", "col2im_fast")}
+        for name in ("col2im_v2", "col2im_fast"):
+            if imgs[name].shape != imgs["col2im"].shape or not np.array_equal(imgs[name], imgs["col2im"]):
+                out.append((key + ":col2im-variants-differ", "after a call on y of x%s %s, col2im and %s disagree on the sibling x%s %s" % (xs, kwa, name, xs2, kwb)))
+        # <im2col(x), y> = <x, col2im(y)> on the sibling, per implementation
+        for i2c, c2i in (("im2col", "col2im"), ("im2col_v2", "col2im_v2"), ("im2col_fast", "col2im_fast")):
+            lhs = float((cols[i2c] * yb).sum())
+            rhs = float((xb * imgs[c2i]).sum())
+            if abs(lhs - rhs) > 1e-9 * max(1.0, abs(lhs)):
+                out.append((key + ":adjoint", "%s / %s on the sibling geometry: <im2col(x), y> = %r, <x, col2im(y)> = %r" % (i2c, c2i, lhs, rhs)))
+    except Exception as e:  # noqa: BLE001
+        out.append((key + ":raised", "sibling geometry x%s %s after x%s %s raised %s: %s" % (xs2, kwb, xs, kwa, type(e).__name__, str(e)[:80])))
+    return out
+
+
 def run(ctx):
     sg = repo.load(ctx.repo)
     ct = sg.conv_tools
     if ctx.replay:
         case = json.load(open(ctx.replay))["replay"]["case"]
-        bad = check_case(ct, case, 1)
+        bad = check_case(ct, case, 1) + check_pair(ct, case, 1)
         for k, m in bad:
             print("DIVERGENCE", k, m)
         if bad:
@@ -159,7 +216,7 @@ def run(ctx):
         rep.traces += 1
         if i % 199 == 3:
             rep.sample({k: case.get(k) for k in ("op", "a", "shapes", "oshape")}, limit=4)
-        for key, msg in check_case(ct, case, ctx.seed + i):
+        for key, msg in check_case(ct, case, ctx.seed + i) + check_pair(ct, case, 1):
             rep.violation(key, msg, {"spec": "NNCatalog", "case": {k: v for k, v in case.items() if not k.startswith("_")}})
     rep.exhaustive = True
     return rep.finish()
